@@ -97,6 +97,10 @@ def spec_of(item):
             d['sampler'] = True
         elif isinstance(extra, str) and extra.startswith('alias='):
             d['alias'] = extra[6:]
+        elif extra == 'closure':
+            d['closure'] = True
+        elif isinstance(extra, str) and extra.startswith('skip='):
+            d['skip'] = extra[5:].split(',')
         elif isinstance(extra, str) and extra.startswith('decl_file='):
             d['decl_file'] = extra[10:]
     return d
@@ -135,6 +139,7 @@ class GroupResult:
         self.log = ''
         self.workdir = ''
         self.trace = None
+        self.loop_mismatch = False
 
     def counts(self):
         obs = [o for o in self.obligations if CANARY not in o['desc']]
@@ -164,15 +169,36 @@ def parse_cbmc_json(out):
     return results, status, msgs, data
 
 
+def contract_loop_macros(cname):
+    """number of LOOP_<cname>_<k> macros defined in contracts/*.h"""
+    ks = set()
+    cdir = os.path.join(VERIF, 'contracts')
+    for f in os.listdir(cdir):
+        if f.endswith('.h'):
+            for m in re.finditer(r'#define\s+LOOP_%s_(\d+)\b' % re.escape(cname), open(os.path.join(cdir, f)).read()):
+                ks.add(int(m.group(1)))
+    return len(ks)
+
+
 def build_group(g, workdir):
     os.makedirs(workdir, exist_ok=True)
     man = []
     texts = []
+    done = set()
     for it in g.extract:
         spec = spec_of(it)
-        r = dict(extract_cached(spec))
-        texts.append(r.pop('text'))
-        man.append(r)
+        specs = [spec]
+        if spec.get('closure'):
+            # the function plus every helper defined in the same file that it transitively calls (robust to helper refactors)
+            specs = [dict(spec, function=fn, closure=False) for fn in X.closure_order(spec['file'], spec['function'], skip=set(done) | set(spec.get('skip', [])))]
+        for sp in specs:
+            sp = {k: v for k, v in sp.items() if k not in ('closure', 'skip')}
+            r = dict(extract_cached(sp))
+            if r['c_name'] in done:
+                continue
+            done.add(r['c_name'])
+            texts.append(r.pop('text'))
+            man.append(r)
     with open(os.path.join(workdir, 'extracted.inc'), 'w') as f:
         f.write('/* generated on every run by tools/extract.py from %s -- do not edit */\n' % REPO)
         f.write('\n'.join(texts))
@@ -201,6 +227,17 @@ def run_group(g, trace=False, workroot=None):
         res.reason = 'extraction: %s' % e
         res.wall = time.time() - t0
         return res
+    if g.loops:
+        for e in res.extraction:
+            want = contract_loop_macros(e['c_name'])
+            if want and want != e['loops']:
+                # the loop structure of the function changed: the loop contracts no longer describe this code, so no obligation
+                # generated from them says anything about the property.  Undecided -- unless the native input search on the real
+                # code exhibits a violation (check.py), in which case that is reported.
+                res.reason = 'loop structure of %s changed (%d loops, contracts describe %d): proof not applicable' % (e['c_name'], e['loops'], want)
+                res.loop_mismatch = True
+                res.wall = time.time() - t0
+                return res
     a = os.path.join(workdir, 'a.gb')
     b = os.path.join(workdir, 'b.gb')
     defs = ['-D%s=%s' % (k, v) if v is not None else '-D%s' % k for k, v in sorted(g.defines.items())]
